@@ -109,7 +109,8 @@ def fit_production_pressure(
     pressure_fracface = np.array(prod_data["Pressure"])
 
     # with noisy data, sometimes a boxcar filter is beneficial
-    if filter_window_size is not None:
+    # (a window of one sample is the identity; the running sum inside the filter is not)
+    if filter_window_size is not None and filter_window_size > 1:
         pressure_fracface = sp.ndimage.uniform_filter1d(pressure_fracface, size=filter_window_size)
     cumulative_prod = np.cumsum(np.array(prod_data["Gas"]))
 
@@ -183,7 +184,7 @@ def plot_production_comparison(
 
     pressure_fracface = np.array(prod_data["Pressure"])
     #
-    if filter_window_size is not None:
+    if filter_window_size is not None and filter_window_size > 1:
         pressure_fracface = sp.ndimage.uniform_filter1d(pressure_fracface, size=filter_window_size)
     #
     cumulative_prod = np.cumsum(np.array(prod_data["Gas"]))
